@@ -155,6 +155,6 @@ func c18ChainWalks(w *World, r *Report) {
 		}
 	}
 	if n == 0 {
-		r.Fail("C18-c", "filesystem/fat12", "chain walks", "filesystem/fat12", "no cluster-chain walk found (the rule's anchor ClusterValue is gone)")
+		r.Undecided("C18-c", "filesystem/fat12", "chain walks", "filesystem/fat12", "no cluster-chain walk found (the rule's anchor ClusterValue is gone)")
 	}
 }
